@@ -60,6 +60,8 @@ CountOp(h, o) == Cardinality({i \in 2..Len(h) : h[i].step.op = o})
 (* is rewritten by one pass and used by the next                                                 *)
 KeepTwoPasses(h) == CountOp(h, "hot_reload") >= 2 /\ CountOp(h, "notify") >= 2 /\ h[2].step.op = "load" /\ h[Len(h)].step.op = "hot_reload"
 
+(* an asset is removed and loaded again (registered twice with the reloader), then a pass runs *)
+KeepReReg(h) == CountOp(h, "remove") >= 1 /\ CountOp(h, "load") >= 2 /\ CountOp(h, "notify") >= 1 /\ h[2].step.op = "load" /\ h[Len(h)].step.op = "hot_reload"
 (* some asset was actually reloaded *)
 KeepReloaded(h) == \E i \in 2..Len(h) : \E e \in h[i].snap : e.rid > 0
 
